@@ -85,6 +85,9 @@ def part_b(tier, out):
     code = r.returncode if r.returncode in (0, 1) else 2
     if code == 2:
         summ["stderr"] = r.stderr[-2000:]
+    if code == 0 and summ.get("programs_failing_without_threads", 0) * 2 > programs:
+        summ["what"] = "more than half of the generated scenarios fail with no threads at all: nothing can be said about thread-safety on this tree (the value-operation checks of C15 are the place to look)"
+        return summ, 2, None
     return summ, code, viol
 
 
@@ -103,10 +106,13 @@ def part_b2(tier):
     res = {"pipelines": n, "exit": r.returncode}
     if r.returncode == 0:
         return res, 0, None
+    if r.returncode == 3:
+        res["harness_trouble"] = [l for l in r.stdout.splitlines() if "HARNESS-TROUBLE" in l][:3]
+        return res, 2, None
     findings = [l for l in r.stdout.splitlines() if "FINDINGS" in l]
     progs = sorted(set(int(m.group(1)) for m in (re.match(r"program (\d+) ", l) for l in findings) if m))
     real = []
-    for pnum in progs[:20]:
+    for pnum in progs[:200]:
         rb = sh(f"./target-ts/release/miri_scn {SEED} {pnum} 1 pipeline-baseline", cwd=SIM)
         if rb.returncode == 0:
             real.append(pnum)
@@ -125,7 +131,9 @@ def part_b2(tier):
     return res, 1, f"VIOLATION property=C20 replay={path}"
 
 
-MIRI_ERR = re.compile(r"error: (Undefined Behavior|unsupported operation|.*[Dd]ata race|memory leaked|deadlock|the evaluated program)")
+# only what is a verdict about the program's memory / thread safety; "unsupported operation",
+# leaks, deadlocks of the harness's own gates etc. are Miri or harness limitations (exit 2)
+MIRI_ERR = re.compile(r"error: (Undefined Behavior|.*[Dd]ata race)")
 
 
 def part_c(tier, out):
@@ -155,7 +163,10 @@ def part_c(tier, out):
         if findings and not ub:
             # a lineage mismatch: is it there without any thread too (fresh native process)? then
             # it is not a thread-safety matter and is not reported under C20
-            sh("cargo build --release --features shuttle-mode --bin miri_scn --target-dir target-ts", cwd=SIM)
+            bb = sh("cargo build --release --features shuttle-mode --bin miri_scn --target-dir target-ts", cwd=SIM)
+            if bb.returncode != 0:
+                res["stderr"] = bb.stderr[-2000:]
+                return res, 2, None
             rb = sh(f"./target-ts/release/miri_scn {SEED} {prog} 1 baseline", cwd=SIM)
             if rb.returncode != 0:
                 res.setdefault("programs_failing_without_threads", []).append(prog)
